@@ -587,7 +587,7 @@ Definition attachable (st:kstate) (caller:thread) (flags:N) (p:list instr) : Pro
   0 < fprog_len p /\ fprog_len p <= BPF_MAXINSNS /\
   kernel_check (firstn (N.to_nat (fprog_len p)) (map encode p)) = true /\
   t_strict caller = false /\
-  path_len st caller (fprog_len p) <= MAX_INSNS_PER_PATH /\
+  path_len st caller (internal_len (firstn (N.to_nat (fprog_len p)) (map encode p))) <= MAX_INSNS_PER_PATH /\
   (has_flag flags FLAG_TSYNC = true -> first_unsyncable caller (ks_threads st) = None).
 
 Lemma fprog_len_le : forall p, fprog_len p <= N.of_nat (List.length (map encode p)).
@@ -607,7 +607,7 @@ Proof.
   replace (fprog_len p =? 0) with false by (symmetry; apply N.eqb_neq; lia).
   replace (BPF_MAXINSNS <? fprog_len p) with false by (symmetry; apply N.ltb_ge; exact A4).
   replace (N.of_nat (List.length (map encode p)) <? fprog_len p) with false by (symmetry; apply N.ltb_ge; apply fprog_len_le).
-  replace (MAX_INSNS_PER_PATH <? path_len st caller (fprog_len p)) with false by (symmetry; apply N.ltb_ge; exact A7).
+  replace (MAX_INSNS_PER_PATH <? path_len st caller (internal_len (firstn (N.to_nat (fprog_len p)) (map encode p)))) with false by (symmetry; apply N.ltb_ge; exact A7).
   cbn [orb].
   destruct (has_flag flags FLAG_TSYNC); [rewrite (A8 eq_refl)|]; reflexivity.
 Qed.
@@ -737,7 +737,7 @@ Lemma declines_thread_sync : forall st t caller flags p bad,
   flags_ok flags = true -> has_flag flags FLAG_NEW_LISTENER = false ->
   0 < fprog_len p -> fprog_len p <= BPF_MAXINSNS ->
   kernel_check (firstn (N.to_nat (fprog_len p)) (map encode p)) = true ->
-  t_strict caller = false -> path_len st caller (fprog_len p) <= MAX_INSNS_PER_PATH ->
+  t_strict caller = false -> path_len st caller (internal_len (firstn (N.to_nat (fprog_len p)) (map encode p))) <= MAX_INSNS_PER_PATH ->
   has_flag flags FLAG_TSYNC = true -> has_flag flags FLAG_TSYNC_ESRCH = false ->
   first_unsyncable caller (ks_threads st) = Some bad ->
   do_seccomp st t SECCOMP_SET_MODE_FILTER flags (fprog p) = (st, bad, 0).
@@ -750,7 +750,7 @@ Proof.
   replace (fprog_len p =? 0) with false by (symmetry; apply N.eqb_neq; lia).
   replace (BPF_MAXINSNS <? fprog_len p) with false by (symmetry; apply N.ltb_ge; exact A4).
   replace (N.of_nat (List.length (map encode p)) <? fprog_len p) with false by (symmetry; apply N.ltb_ge; apply fprog_len_le).
-  replace (MAX_INSNS_PER_PATH <? path_len st caller (fprog_len p)) with false by (symmetry; apply N.ltb_ge; exact A7).
+  replace (MAX_INSNS_PER_PATH <? path_len st caller (internal_len (firstn (N.to_nat (fprog_len p)) (map encode p)))) with false by (symmetry; apply N.ltb_ge; exact A7).
   reflexivity.
 Qed.
 
